@@ -146,12 +146,13 @@ func checkMap(t fataler, s *suite, T string, u ref.V, boundary bool, ucs ...stri
 	mc := s.mapCurve()
 	undefined := strings.HasSuffix(br, ":undefined")
 	if undefined && rep.Known("C13", kfSswuZ) {
-		// known finding: Z of this suite fails criterion 4, the RFC map has no value at this exceptional
-		// input; TestC13_ExceptionalProbe re-observes what the library returns there
+		// known finding F71: Z of this suite fails criterion 4, the RFC map has no value at this exceptional
+		// input. Only these inputs are tolerated, and only with exactly the output the library is known
+		// to produce there (pinF71); anything else on this suite is still reported.
+		pinF71(t, s, u)
 		rep.Excluded(T, "C13", kfSswuZ)
 		return
 	}
-
 	switch {
 	case undefined:
 		// The configured Z of this suite violates criterion 4 of RFC 9380 6.6.2, so the RFC map has
